@@ -71,7 +71,7 @@ Proof.
       unfold Inv, info_agrees; cbn; repeat split; try discriminate; auto.
     + destruct (Hna eq_refl) as (-> & Hc).
       unfold Inv, info_agrees; cbn; repeat split; try discriminate; auto; try lia;
-        try (intros E; destruct (Ht E) as (? & ? & ?); first [lia | assumption | discriminate]).
+        try (destruct (Ht eq_refl) as (? & ? & ?); first [lia | assumption | discriminate]).
   - (* AttemptFail *) apply Nat.ltb_lt in He. destruct i as [|i]; [lia|]. cbn [pred].
     destruct a; exec.
     + destruct (Ha eq_refl) as (-> & -> & Hc & _). unfold timer_count in Hc. cbn in Hc.
@@ -80,7 +80,7 @@ Proof.
         unfold Inv, info_agrees; cbn; repeat split; try discriminate; auto.
     + destruct (Hna eq_refl) as (-> & Hc).
       unfold Inv, info_agrees; cbn; repeat split; try discriminate; auto; try lia;
-        try (intros E; destruct (Ht E) as (? & ? & ?); first [lia | assumption | discriminate]).
+        try (destruct (Ht eq_refl) as (? & ? & ?); first [lia | assumption | discriminate]).
   - (* Lost *) apply Nat.ltb_lt in He. destruct w as [|w]; [lia|]. cbn [pred].
     destruct a; exec.
     + destruct (Ha eq_refl) as (-> & -> & Hc & _). unfold timer_count in Hc. cbn in Hc.
@@ -88,7 +88,7 @@ Proof.
       unfold Inv, info_agrees; cbn; repeat split; try discriminate; auto.
     + destruct (Hna eq_refl) as (-> & Hc).
       unfold Inv, info_agrees; cbn; repeat split; try discriminate; auto; try lia;
-        try (intros E; destruct (Ht E) as (? & ? & ?); first [lia | assumption | discriminate]).
+        try (destruct (Ht eq_refl) as (? & ? & ?); first [lia | assumption | discriminate]).
   - (* TimerExpired *) destruct tm as [q|]; [|discriminate].
     destruct a; [|destruct (Hna eq_refl); discriminate].
     destruct (Ha eq_refl) as (-> & -> & Hc & _). unfold timer_count in Hc. cbn in Hc.
@@ -109,7 +109,7 @@ Proof.
     { destruct a; [destruct (Ha eq_refl) as (_ & _ & Hc & _); lia | destruct (Hna eq_refl); assumption]. }
     destruct tm as [q|]; exec; destruct t; exec;
       unfold Inv, info_agrees; cbn; repeat split; try discriminate; auto;
-      intros E; destruct (Ht E) as (? & ? & _); assumption.
+      try (destruct (Ht eq_refl) as (? & ? & ?); first [lia | assumption | discriminate]).
 Qed.
 
 Lemma inv_run : forall evs s, Inv s -> permitted s evs -> Inv (fst (run s evs)).
@@ -155,43 +155,41 @@ Proof.
     repeat split; auto; repeat constructor.
 Qed.
 
-(* for EVERY event, enabled or not *)
-Lemma stopped_step : forall s e, Stopped s ->
-  Stopped (fst (step s e)) /\ Forall (fun o => silent o = true) (snd (step s e)).
+(* every event that can happen (a timer cannot expire: there is none) *)
+Lemma stopped_step : forall s e, Stopped s -> enabled s e = true ->
+  Stopped (fst (step s e)) /\ Forall (fun o => silent o = true) (snd (step s e)) /\ leaked (fst (step s e)) = leaked s.
 Proof.
-  intros [a sp t d tm i w l inf] e (H1 & H2 & H3). cbn in H1, H2, H3. subst.
-  destruct e; exec; try destruct t; exec; unfold Stopped; cbn; repeat split; auto; repeat constructor.
+  intros [a sp t d tm i w l inf] e (H1 & H2 & H3) He. cbn in H1, H2, H3. subst.
+  destruct e; cbn in He; try discriminate; exec; try destruct t; exec; unfold Stopped; cbn;
+    repeat split; auto; repeat constructor.
 Qed.
 
-Lemma stopped_run : forall evs s, Stopped s ->
-  Stopped (fst (run s evs)) /\ Forall (fun o => silent o = true) (snd (run s evs)).
+Lemma stopped_run : forall evs s, Stopped s -> permitted s evs ->
+  Stopped (fst (run s evs)) /\ Forall (fun o => silent o = true) (snd (run s evs)) /\ leaked (fst (run s evs)) = leaked s.
 Proof.
-  induction evs as [|e r IH]; intros s H; cbn [run].
-  - split; [exact H | constructor].
-  - destruct (stopped_step s e H) as [H1 H2]. destruct (step s e) as [s1 o1]. cbn [fst snd] in *.
-    destruct (IH s1 H1) as [H3 H4]. destruct (run s1 r) as [s2 o2]. cbn [fst snd] in *.
-    split; [exact H3 | apply Forall_app; split; assumption].
+  induction evs as [|e r IH]; intros s H HP; cbn [run permitted] in *.
+  - split; [exact H | split; [constructor | reflexivity]].
+  - destruct HP as [He HP]. destruct (stopped_step s e H He) as (H1 & H2 & H2').
+    destruct (step s e) as [s1 o1]. cbn [fst snd] in *.
+    destruct (IH s1 H1 HP) as (H3 & H4 & H4'). destruct (run s1 r) as [s2 o2]. cbn [fst snd] in *.
+    split; [exact H3 | split; [apply Forall_app; split; assumption | congruence]].
 Qed.
 
 Theorem silent_after_stop : forall evs1 evs2,
+  permitted init_state (evs1 ++ Stop :: evs2) ->
   let s1 := fst (run init_state (evs1 ++ [Stop])) in
   let r := run s1 evs2 in
-  Forall (fun o => silent o = true) (snd r) /\ active (fst r) = false /\ timer (fst r) = None /\ leaked (fst r) = leaked s1.
+  Forall (fun o => silent o = true) (snd r) /\ active (fst r) = false /\ timer (fst r) = None /\ leaked (fst r) = 0%nat.
 Proof.
-  intros evs1 evs2 s1 r.
+  intros evs1 evs2 HP s1 r.
+  replace (evs1 ++ Stop :: evs2) with ((evs1 ++ [Stop]) ++ evs2) in HP by (rewrite <- app_assoc; reflexivity).
+  destruct (permitted_app _ _ _ HP) as [HP1 HP2]. fold s1 in HP2.
   assert (HS : Stopped s1).
   { unfold s1. rewrite run_app. destruct (run init_state evs1) as [s0 o0]. cbn [run].
     pose proof (stop_stops s0) as [H _]. destruct (step s0 Stop) as [s' o']. cbn [fst] in *. exact H. }
-  destruct (stopped_run evs2 s1 HS) as [(H1 & H2 & H3) H4]. fold r in H1, H2, H3, H4.
-  repeat split; try assumption.
-  (* no timer is leaked either *)
-  unfold r. clear r H1 H2 H3 H4. revert s1 HS. induction evs2 as [|e rr IH]; intros s1 HS; cbn [run]; [reflexivity|].
-  destruct (stopped_step s1 e HS) as [H1 _].
-  assert (leaked (fst (step s1 e)) = leaked s1).
-  { destruct s1 as [a sp t d tm i w l inf]. destruct HS as (E1 & E2 & E3). cbn in E1, E2, E3. subst.
-    destruct e; exec; try destruct t; exec; reflexivity. }
-  destruct (step s1 e) as [s2 o2]. cbn [fst] in *. specialize (IH s2 H1).
-  destruct (run s2 rr) as [s3 o3]. cbn [fst] in *. congruence.
+  destruct (stopped_run evs2 s1 HS HP2) as ((H1 & H2 & H3) & H4 & H5). fold r in H1, H2, H3, H4, H5.
+  destruct (inv_run _ init_state inv_init HP1) as (HL & _). fold s1 in HL.
+  repeat split; try assumption. congruence.
 Qed.
 
 (* ------------------------------------------------------------------ 3. delays stay in range *)
@@ -202,6 +200,11 @@ Lemma c_factor : 0 <= factor. Proof. apply Qle_bool_imp_le; vm_compute; reflexiv
 Lemma c_jitter : 0 <= jitter. Proof. apply Qle_bool_imp_le; vm_compute; reflexivity. Qed.
 Lemma c_max : 0 <= maxDelay. Proof. apply Qle_bool_imp_le; vm_compute; reflexivity. Qed.
 
+Lemma Qmult_le_l_weak : forall x y z, 0 <= z -> x <= y -> z * x <= z * y.
+Proof.
+  intros x y z Hz H. rewrite (Qmult_comm z x), (Qmult_comm z y). apply Qmult_le_compat_r; assumption.
+Qed.
+
 Lemma in_range_small : forall Zmax q, 0 <= Zmax -> 0 <= q -> q <= maxDelay -> in_range Zmax q.
 Proof.
   intros Zmax q HZ H0 H1. split; [exact H0|]. unfold delay_bound.
@@ -211,8 +214,6 @@ Proof.
   { apply Qmult_le_l_weak; [assumption | lra]. }
   lra.
 Qed.
-
-Lemma Qmult_le_l_weak' : True. Proof. exact I. Qed.
 
 Lemma jitter_in_range : forall Zmax z mu,
   0 <= Zmax -> Zmax * jitter <= 1 -> - Zmax <= z -> z <= Zmax -> 0 <= mu -> mu <= maxDelay ->
@@ -261,20 +262,20 @@ Proof.
     destruct (mu_ok Zmax d Hd) as [M0 M1].
     destruct (q_truthy jitter); exec; unfold RInv; cbn.
     + pose proof (jitter_in_range Zmax z _ HZ HJ Hz1 Hz2 M0 M1) as R.
-      split; [split; exact R | repeat constructor; exact R].
+      split; [split; exact R | constructor; [exact R | constructor]].
     + pose proof (in_range_small Zmax _ HZ M0 M1) as R.
-      split; [split; exact R | repeat constructor; exact R].
+      split; [split; exact R | constructor; [exact R | constructor]].
   - (* Lost *) destruct a; exec; unfold RInv; cbn.
-    + split; [split; exact Hini | repeat constructor; exact Hini].
+    + split; [split; exact Hini | constructor; [exact Hini | constructor]].
     + split; [split; assumption | repeat constructor].
   - (* TimerExpired *) unfold RInv; cbn. split; [split; [assumption | exact I] | repeat constructor].
-  - (* Elapse *) unfold RInv; cbn. split; [|constructor]. split; [assumption|].
+  - (* Elapse *) unfold RInv; cbn [fst snd delay timer]. split; [|constructor]. split; [assumption|].
     destruct tm as [q|]; [|exact I]. destruct Ht as [T0 T1]. unfold in_range. rewrite Qred_correct. split; lra.
   - (* Reset *)
     assert (R1 : in_range Zmax (1 # 1)).
     { apply in_range_small; [assumption | |]; apply Qle_bool_imp_le; vm_compute; reflexivity. }
     destruct tm as [q|]; exec; unfold RInv; cbn.
-    + split; [split; assumption | repeat constructor; exact R1].
+    + split; [split; assumption | constructor; [exact R1 | constructor]].
     + split; [split; [assumption | exact I] | repeat constructor].
   - (* Stop *) destruct tm as [q|]; exec; destruct t; exec; unfold RInv; cbn;
       (split; [split; [assumption | exact I] | repeat constructor]).
